@@ -683,7 +683,7 @@ def part_mutations(run, fsets):
 def part_histories(run, fsets):
     """B: every history recipe; whole mutation set on a flat folder and on the deep tree with 2 nested levels"""
     thorough = run.tier == "thorough"
-    key = {"two-fmt", "n+dh", "dh+n", "dh+sf", "sf+dh"}
+    key = {"two-fmt", "n+dh", "dh+sf"}
     rotate = [("levels", 1), ("prefix", 2), ("emptyfolder", 0), ("names", 1), ("deep", 1), ("wide3", 1), ("dups", 2), ("onlydirs", 1)]
     k = 0
     for ri, recipe in enumerate(RECIPES):
